@@ -1,7 +1,7 @@
 /* C09 (chain accounting), C10 (delivery independence), C17 (integer PCM), C19 (lapped seeks),
    C20 (half-rate) monitors on encoder-made chained streams. */
 #include "common.h"
-#include "spec.h"
+#include "mixed.h"
 #include <math.h>
 
 typedef struct { OggVorbis_File vf; memsrc_t ms; int open; } handle_t;
@@ -192,6 +192,8 @@ static void case_c10(const drvargs_t *a,long id){
   res_begin(id);
   gen_chain(&r,a->thorough?6:4,a->thorough?24000:9000,GC_ALLOW_EMPTY|GC_MULTICH|GC_MANAGED,&cd);
   chain_describe(&cd,desc,sizeof desc);
+  if(id%4==3){ if(build_chain_mixed(&r,&cd,pick_modelmask(&r,cd.nlinks),40,8,&phys,NULL,desc,sizeof desc)){ res_sample("refused: %s",desc); res_end(); buf_free(&phys); return; } }
+  else
   if(build_chain(&cd,&phys,NULL)){ res_sample("encoder refused: %s",desc); res_end(); buf_free(&phys); return; }
   vh_dump("stream.ogg",phys.p,phys.n);
   refdec_t ref; if(ref_decode(phys.p,phys.n,0,&ref)){ res_viol("C10","seekable-read-broken","%s: %s",ref.err,desc); res_eval(1); ref_free(&ref); res_end(); buf_free(&phys); return; }
@@ -531,6 +533,8 @@ static void case_c19(const drvargs_t *a,long id){
   res_begin(id);
   gen_chain(&r,a->thorough?6:4,a->thorough?24000:10000,GC_ALLOW_EMPTY|GC_MULTICH,&cd);
   chain_describe(&cd,desc,sizeof desc);
+  if(id%4==3){ if(build_chain_mixed(&r,&cd,pick_modelmask(&r,cd.nlinks),40,8,&phys,NULL,desc,sizeof desc)){ res_sample("refused: %s",desc); res_end(); buf_free(&phys); return; } }
+  else
   if(build_chain(&cd,&phys,NULL)){ res_sample("encoder refused: %s",desc); res_end(); buf_free(&phys); return; }
   vh_dump("stream.ogg",phys.p,phys.n);
   refdec_t F; if(ref_decode(phys.p,phys.n,0,&F)){ res_viol("C19","linear-broken","%s",F.err); ref_free(&F); res_end(); buf_free(&phys); return; }
